@@ -2,6 +2,8 @@
 # Run every thorough check once on the unchanged tree and report exit status and wall time.  usage: tools/thorough_sweep.sh [seed]
 cd "$(dirname "$0")/.." || exit 2
 bad=0
+# a snapshot made by `vp run` holds committed files only: install the dependencies the way MANIFEST.setup_cmd does
+[ -d .deps ] || /venv/bin/pip install --quiet --no-index --find-links /opt/veriftools/wheels --target ./.deps hypothesis atheris
 for p in 01 02 03 04 05 06 07 08 09 10 11 12 13 14 15 16 17 18 19 20; do
   start=$(date +%s)
   out=$(VERIF_SEED=${1:-1} ./check C$p --tier thorough 2>&1); rc=$?
